@@ -48,6 +48,11 @@ func noReturn(c *sym.Config) {
 
 func allowLeak(c *sym.Config) { c.AllowLeak = false }
 
+func bigSteps(c *sym.Config) {
+	c.MaxSteps = 400_000_000
+	c.MaxLoop = 2_000_000
+}
+
 var props = map[string]*propDef{
 	"C14": {
 		ID: "C14", Level: "model_checking", Rule: ruleDefault,
@@ -91,6 +96,8 @@ var props = map[string]*propDef{
 			{Must: mustC01, Name: "proto.VerifC01GenLeaves", Quick: map[string]int{"maxrows": 2}, Thorough: map[string]int{"maxrows": 4}},
 			{Must: mustC01, Name: "proto.VerifC01PlainLeaves", Quick: map[string]int{"maxrows": 2, "maxstr": 2}, Thorough: map[string]int{"maxrows": 3, "maxstr": 2}},
 			{Must: mustC01, Name: "proto.VerifC01Composites", Quick: map[string]int{"maxrows": 2, "maxstr": 1, "maxinner": 2}, Thorough: map[string]int{"maxrows": 3, "maxstr": 2, "maxinner": 2}},
+			{Must: mustC01, Name: "proto.VerifC01Boundaries", Cfg: bigSteps, Quick: map[string]int{"minrows": 258, "maxrows": 258}, Thorough: map[string]int{"minrows": 258, "maxrows": 258}},
+			{Must: mustC01, Name: "proto.VerifC01Boundaries", OnlyTier: "thorough", Cfg: bigSteps, Thorough: map[string]int{"minrows": 65538, "maxrows": 65538, "bigdict": 1, "bigstr": 0}},
 			{Must: mustC01, Name: "proto.VerifC01PlainLeaves", Tags: "verif,purego", Quick: map[string]int{"maxrows": 2, "maxstr": 1}, Thorough: map[string]int{"maxrows": 3, "maxstr": 2}},
 			{Must: mustC01, Name: "proto.VerifC01GenLeaves", Tags: "verif,purego", Quick: map[string]int{"maxrows": 2}, Thorough: map[string]int{"maxrows": 4}},
 		},
